@@ -110,6 +110,7 @@ class Executor:
         self.concretise_shifts = False
         self.lazy_forks = False
         self.fx = None
+        self.glue = None
         self.cost_mode = False
         self._bigcanon = {}
         self.cost_oid = None
@@ -305,6 +306,7 @@ class Executor:
                 return self.store.bor(x, y)
             raise Unsupported('bool binop ' + tok)
         if kx == 'string':
+            x, y = self.zs(st, x), self.zs(st, y)
             if tok in ('==', '!='):
                 r = self.bytes_eq(x[1], y[1])
                 return r if tok == '==' else self.store.bnot(r)
@@ -325,6 +327,15 @@ class Executor:
             if tok in ('==', '!=') and x == y:
                 return tok == '=='
         raise Unsupported('binop %s on %s' % (tok, kx))
+
+    def zs(self, st, v):
+        """materialise a string: ('ZA', obj, path, off, len) is a string header aliasing a byte
+        buffer (produced only by unsafe []byte->string reinterpretation); its content is whatever the
+        buffer holds when the string is used"""
+        if v.__class__ is tuple and v and v[0] == 'ZA':
+            arr = self.getpath(st.heap[v[1]], v[2])
+            return ('Z', tuple(arr[1][v[3]:v[3] + v[4]]))
+        return v
 
     def bxor(self, x, y):
         if x.__class__ is bool and y.__class__ is bool:
@@ -382,6 +393,8 @@ class Executor:
 
     def floatop(self, tok, x, y, st, pos):
         a, b = x[1], y[1]
+        if self.glue is not None and tok == '==' and a.__class__ is tuple and b.__class__ is tuple and (a[0] == 'GR' or b[0] == 'GR'):
+            return self.glue.feq(st, a, b)
         if self.fx is not None and ((a.__class__ is tuple and a[0] == 'FX') or (b.__class__ is tuple and b[0] == 'FX')):
             if b.__class__ is int and a.__class__ is tuple:
                 if tok in ('*', '/'):
@@ -456,7 +469,10 @@ class Executor:
             return int(f) & mask(b['bits'])
         if ka == 'float' and kb == 'float':
             return x
+        if (ka == 'ptr' and kb == 'unsafeptr') or (ka == 'unsafeptr' and kb == 'ptr'):
+            return x     # reinterpretation: the loaded value is re-typed at the load (see UnOp '*')
         if ka == 'string' and kb == 'slice':
+            x = self.zs(st, x)
             eb = T[b['elem']]
             if eb['kind'] == 'int' and eb['bits'] == 8:
                 cells = x[1]
@@ -666,6 +682,8 @@ class Executor:
                 if loose and v[1].__class__ is Term:
                     return ('D', ('?', 64))
                 return v
+            if tag == 'ZA':
+                return ('ZA', cid(v[1]), v[2], v[3], v[4])
             if tag == 'A' and len(v[1]) > 4096:
                 # large buffers: canonical form memoised by identity of the cell tuple
                 ent = self._bigcanon.get(id(v[1]))
@@ -1062,6 +1080,9 @@ class Executor:
                     return True
                 if r.__class__ is tuple and r and r[0] in ('SEL', 'ITE'):
                     r = self.resolve_sel(r, ins['type'])
+                if r.__class__ is tuple and r and r[0] == 'S' and self.prog.types[ins['type']]['kind'] == 'string':
+                    # a []byte header read as a string header (unsafe zero-copy conversion)
+                    r = ('ZA', r[1], r[2], r[3], r[4]) if r[1] is not None else EMPTYSTR
                 env[ins['name']] = r
                 return None
             t = self.prog.types[ins['xt']]
@@ -1196,7 +1217,7 @@ class Executor:
             env[ins['name']] = ('S', oid, (), 0, sl, sc)
             return None
         if op == 'Index':
-            x = val(st, fr, ins['x'])
+            x = self.zs(st, val(st, fr, ins['x']))
             i = self.widen_index(val(st, fr, ins['index']), ins.get('it'))
             t = self.prog.types[ins['xt']]
             cells = x[1]
@@ -1426,6 +1447,7 @@ class Executor:
         if mx is not None:
             mx = self.conc(st, mx, 'slice max')
         if t['kind'] == 'string':
+            x = self.zs(st, x)
             cells = x[1]
             if hi is None:
                 hi = len(cells)
@@ -1498,7 +1520,7 @@ class Executor:
 
     def mapupdate(self, st, fr, ins):
         m = self.val(st, fr, ins['map'])
-        k = self.val(st, fr, ins['key'])
+        k = self.zs(st, self.val(st, fr, ins['key']))
         v = self.val(st, fr, ins['value'])
         if m is None:
             self.panic(st, 'assignment to entry in nil map', ins['pos'])
@@ -1517,7 +1539,7 @@ class Executor:
 
     def lookup(self, st, fr, ins):
         m = self.val(st, fr, ins['x'])
-        k = self.val(st, fr, ins['index'])
+        k = self.zs(st, self.val(st, fr, ins['index']))
         t = self.prog.types[ins['xt']]
         if t['kind'] != 'map':
             raise Unsupported('lookup in string')
@@ -1696,6 +1718,8 @@ class Executor:
                 return x[4]
             if x[0] == 'Z':
                 return len(x[1])
+            if x[0] == 'ZA':
+                return x[4]
             if x[0] == 'M':
                 return len(st.heap[x[1]][1])
             raise Unsupported('len of %r' % (x[0],))
@@ -1706,6 +1730,7 @@ class Executor:
             return self.do_append(st, args[0], args[1], ins)
         if name == 'copy':
             dst, src = args
+            src = self.zs(st, src)
             if src[0] == 'Z':
                 cells = src[1]
             else:
@@ -1735,6 +1760,7 @@ class Executor:
         st.heap[oid] = self.setpath(st.heap[oid], path, new)
 
     def do_append(self, st, s, t, ins):
+        t = self.zs(st, t)
         if t is None:
             add = ()
         elif t[0] == 'Z':
